@@ -102,9 +102,14 @@ fn main() {
         "c06struct" => tokenlevel::c06struct(&args),
         "c16" => tokenlevel::c16(&args),
         "c17" => cli::c17(&args),
+        "c16cli" => cli::c16cli(&args),
         "c18" => tokenlevel::c18(&args),
         "c19" => tokenlevel::c19(&args),
         "replay" => families::replay(&args),
+        "timing" => {
+            families::timing(&args);
+            return;
+        }
         "curated" => {
             families::curated_status(&args);
             return;
